@@ -198,13 +198,43 @@ Fixpoint df_run (take : list N) (delta : N) (l : list (bool * elem)) (fuel : nat
           else df_run take delta l' (S f) acc
       end
   end.
+(* DrainFilter::drop: the remaining buckets are run through the predicate; what it accepts is
+   removed and dropped at once *)
+Fixpoint df_drop (take : list N) (delta : N) (l : list (bool * elem)) : M' unit :=
+  match l with
+  | [] => ret tt
+  | x :: l' =>
+      let e := snd x in
+      cb ;;;
+      when (negb (delta =? 0)) (set_value (fst x) (ek e) (ev e + delta)) ;;;
+      (if inb (ek e) take then (e' <- rt_remove c (fst x) (ek e) ;; drop_elem e') else ret tt) ;;;
+      df_drop take delta l'
+  end.
+(* the calls of next() made by the user: if the predicate panics there, the DrainFilter is
+   dropped while unwinding and its Drop runs the remaining buckets (those after the one whose
+   predicate call panicked) through the predicate, removing and dropping what it accepts *)
+Fixpoint df_run_u (take : list N) (delta : N) (l : list (bool * elem)) (fuel : nat) (acc : list elem)
+  : M' (list elem * list (bool * elem)) :=
+  match l with
+  | [] => ret (acc, [])
+  | x :: l' =>
+      match fuel with
+      | O => ret (acc, l)
+      | S f =>
+          let e := snd x in
+          on_unwind cb (df_drop take delta l') ;;;
+          when (negb (delta =? 0)) (set_value (fst x) (ek e) (ev e + delta)) ;;;
+          if inb (ek e) take then (e' <- rt_remove c (fst x) (ek e) ;; df_run_u take delta l' f (acc ++ [e']))
+          else df_run_u take delta l' (S f) acc
+      end
+  end.
+
 (* drain_filter(f) consumed for j items (None: to the end), then dropped or forgotten *)
 Definition map_drain_filter (take : list N) (delta : N) (j : option N) (forget : bool) : M' (list (N * N * N)) :=
   l <- rt_iter ;;
   let n := length l in
-  r <- df_run take delta l (match j with Some j => N.to_nat j | None => S n end) [] ;;
-  (if forget then ret tt
-   else r' <- df_run take delta (snd r) (S n) [] ;; drop_elems (fst r')) ;;;
+  r <- df_run_u take delta l (match j with Some j => N.to_nat j | None => S n end) [] ;;
+  (if forget then ret tt else df_drop take delta (snd r)) ;;;
   ret (map elem3 (fst r)).
 
 Definition map_reserve (fallible : bool) (n : N) : M' bool := rt_reserve c fallible n.
@@ -311,10 +341,12 @@ Definition write_through (k : N) (w : option N) : M' unit :=
 (* replace_entry_with on an occupied handle: f(&k, v) = if keep then Some (v + d) else None *)
 Definition occ_replace_with (raw : bool) (im : bool) (k : N) (held : option N) (keep : bool) (d : N) : M' ent :=
   e0 <- ent_elem im k ;;
-  b <- rt_replace_bucket_with c im k
-         (fun e => on_unwind cb (drop_elem e) ;;;
-                   if keep then ret (Some (Elem (ek e) (ekid e) (ev e + d)))
-                   else drop_val (ev e) ;;; when raw (drop_key (ekid e)) ;;; ret None) ;;
+  b <- on_unwind
+         (rt_replace_bucket_with c im k
+            (fun e => on_unwind cb (drop_elem e) ;;;
+                      if keep then ret (Some (Elem (ek e) (ekid e) (ev e + d)))
+                      else drop_val (ev e) ;;; when raw (drop_key (ekid e)) ;;; ret None))
+         (drop_held held) ;;
   if b then ret (EOcc im k held)
   else if raw then ret (EVac k None)
   else drop_held held ;;; ret (EVac k (Some (ekid e0))).
@@ -326,7 +358,8 @@ Definition entry_step (raw : bool) (e : ent) (s : estep) : M' (ent * out) :=
       ret (e, OutN (ekid x))
   | SKey, EVac k (Some h) => ret (e, OutN h)
   | SAndModify d, EOcc im k held =>
-      x <- ent_elem im k ;; cb ;;; set_value im k (ev x + d) ;;; ret (e, OutU)
+      (* a panicking closure drops the entry, and with it the key it holds *)
+      x <- ent_elem im k ;; on_unwind cb (drop_held held) ;;; set_value im k (ev x + d) ;;; ret (e, OutU)
   | SAndModify d, EVac _ _ => ret (e, OutU)
   | SAndReplace keep d, EOcc im k held => e' <- occ_replace_with raw im k held keep d ;; ret (e', OutU)
   | SAndReplace keep d, EVac _ _ => ret (e, OutU)
@@ -377,13 +410,14 @@ Definition entry_step (raw : bool) (e : ent) (s : estep) : M' (ent * out) :=
   | SRawInsert kid v, EOcc im k _ =>
       x <- ent_elem im k ;; set_value im k v ;;;
       drop_val (ev x) ;;; drop_key kid ;;; ret (e, OutU)
-  | SRawInsert kid v, EVac k None => tick_hash ;;; vac_insert k kid v ;;; ret (EOcc true k None, OutU)
+  | SRawInsert kid v, EVac k None =>
+      on_unwind tick_hash (drop_key kid ;;; drop_val v) ;;; vac_insert k kid v ;;; ret (EOcc true k None, OutU)
   | SRawOrInsert kid v w, EOcc im k _ =>
       x <- ent_elem im k ;; drop_key kid ;;; drop_val v ;;;
       match w with Some w => set_value im k w | None => ret tt end ;;;
       ret (EDone, OutOKV (Some (ekid x, ev x)))
   | SRawOrInsert kid v w, EVac k None =>
-      tick_hash ;;; vac_insert k kid v ;;; write_through k w ;;; ret (EDone, OutOKV (Some (kid, v)))
+      on_unwind tick_hash (drop_key kid ;;; drop_val v) ;;; vac_insert k kid v ;;; write_through k w ;;; ret (EDone, OutOKV (Some (kid, v)))
   | SRawOrInsertWith kid v w, EOcc im k _ =>
       x <- ent_elem im k ;;
       match w with Some w => set_value im k w | None => ret tt end ;;;
@@ -405,8 +439,7 @@ Fixpoint entry_steps (raw : bool) (e : ent) (ss : list estep) (acc : list out) :
   | [] => (match e with EOcc _ _ held => drop_held held | EVac _ held => drop_held held | EDone => ret tt end) ;;;
           ret acc
   | s :: ss =>
-      r <- on_unwind (entry_step raw e s)
-                     (match e with EOcc _ _ held => drop_held held | EVac _ held => drop_held held | EDone => ret tt end) ;;
+      r <- entry_step raw e s ;;
       entry_steps raw (fst r) ss (acc ++ [snd r])
   end.
 
